@@ -10,7 +10,7 @@
 #include "c10_env.h"
 #include <setjmp.h>
 object_t *command_giver; time_t current_time; object_t *current_interactive; svalue_t const0;
-static pending_call_t A, B, pool[3]; static object_t obA, obB, obN; static char fA[] = "fa", fB[] = "fb", fN[] = "fn";
+static pending_call_t A, B, N0, N1, N2;   /* separate objects, not an array (see C12) */ static object_t obA, obB, obN; static char fA[] = "fa", fB[] = "fb", fN[] = "fn";
 static int G_firedA, G_firedB, G_firedN, G_resched; static long G_delay, G_new_due_expected = -1; static int G_new_handle;
 static long G_fire_time_A = -1, G_fire_time_B = -1;
 int save_context(error_context_t *e) { return 1; }
@@ -54,7 +54,7 @@ void h_call_out_sweep(void) {
   A.handle = slot + W; B.handle = slot + 2 * W; A.command_giver = 0; B.command_giver = 0;
   call_list[slot] = n >= 1 ? &A : 0;
   long dueA = n >= 1 ? due_of(slot, cot, dA) : -1, dueB = n == 2 ? due_of(slot, cot, dA + dB) : -1;
-  pool[0].next = &pool[1]; pool[1].next = &pool[2]; pool[2].next = 0; call_list_free = pool; unique = 9;
+  N0.next = &N1; N1.next = &N2; N2.next = 0; call_list_free = &N0; unique = 9;
   long now = cot + lag;
   call_out();
   V_ASSERT(call_out_time == now, "the sweep catches up with the clock");
@@ -68,7 +68,7 @@ void h_call_out_sweep(void) {
     V_ASSERT(dueB <= now || due_in_wheel(&B, now) == dueB, "the second entry keeps its due time while waiting");
   }
   if (G_new_due_expected >= 0) {
-    long d = due_in_wheel(&pool[0], now);
+    long d = due_in_wheel(&N0, now);
     V_ASSERT(G_firedN == 0 && d >= 0, "a call_out scheduled from inside a callback is queued, not called in the same sweep step");
     V_ASSERT(d == G_new_due_expected, "a call_out scheduled from inside a call_out callback is due at now + max(delay,1) - also when it lands in the slot being swept");
   }
